@@ -77,7 +77,7 @@ def s1_s2(ck, an):
     price_val = fa.sym.ev(ast.Name(id=price_var, ctx=ast.Load()), at) if price_var else None
     book = f"self.exchange[{cvar}]"
     accepted = [f"{book}.bid_price if {qvar} >= 0 else {book}.ask_price", f"{book}.bid_price if {qvar} > 0 else {book}.ask_price", f"{book}.liq_price({qvar})", f"{book}.acq_price(-{qvar})"]
-    good = price_val is not None and any(price_val == spec(fa, t, at) for t in accepted)
+    good = price_val is not None and any(price_val == specv(fa, t, at) for t in accepted)
     ck.check(good, "SIGN", "S1.liquidation-side", subj, fa.loc(nan_tests[0]), "the price tested and used is the bid for longs and the ask for shorts, of the position's own book",
              f"the liquidation price is {price_val.key()[:200] if price_val is not None else '?'}: not the liquidation side of the position's own book", construct="liq_price = bid if quantity >= 0 else ask")
     for rd_ in [n for n in ast.walk(loop) if isinstance(n, ast.Subscript) and ast.unparse(n.value).endswith("exchange")]:
